@@ -256,6 +256,8 @@ def gen_plan(prop, run_seed, tier, ctx):
     fault_free = dec.chance('fault-free', 0.4)
     enabled = {k: (not fault_free) and dec.choice('en-' + k, 3) > 0 for k in ('abort', 'alloc-fail-call', 'alloc-fail-ctor', 'stall')}
     p_fault = 0.0 if fault_free else [0.05, 0.15, 0.4][dec.choice('p-fault', 3)]
+    if not fault_free and dec.chance('fault-sweep', 0.3):
+        return gen_sweep_plan(dec, run_seed, ctx)
     # focus: a few model groups so that clients share models
     gkeys = sorted(groups)
     heavy = dec.chance('heavy', ctx['p_heavy'])
@@ -362,6 +364,31 @@ def pick_probe(dec, plist):
     if strong and dec.choice('strong-probe', 2):
         return strong[dec.choice('sp', len(strong))]['key']
     return plist[dec.choice('probe', len(plist))]['key']
+
+
+def gen_sweep_plan(dec, run_seed, ctx, k_points=8):
+    """Fault sweep: ONE caller repeats one request with a fault (abort or allocation failure) at k stratified points of
+    its measured length, each time followed by an ordinary request to the same model on the same thread. Finds state a
+    failed call leaves behind wherever in the call the vulnerable window lies (a random fault step seldom lands in a
+    window that is a few per cent of one request)."""
+    pool, groups = ctx['pool'], ctx['groups']
+    gkeys = sorted(groups)
+    dt = [g for g in gkeys if g[0] == 'DateTime' and (not ctx.get('dt_focus') or (g[1], g[2]) in ctx['dt_focus'])]
+    cand = dt if (dt and dec.choice('sweep-dt', 2)) else [g for g in gkeys if g[0] not in ('DateTime', 'Currency')] or gkeys
+    g = cand[dec.choice('sweep-group', len(cand))]
+    ts = groups[g]
+    target = ts[dec.choice('sweep-target', len(ts))]
+    via = 'helper' if dec.choice('via', 3) else 'model'
+    ops = [{'op': 'call', 'tuple': target, 'via': via}]
+    for i in range(k_points):
+        kind = 'abort' if dec.choice('sweep-kind', 2) else 'alloc-fail-call'
+        frac = (i + dec.uniform('sweep-u', 0.0, 1.0)) / k_points
+        ops.append({'op': 'call', 'tuple': target, 'via': via,
+                    'fault': {'kind': kind, 'frac': frac, 'ref_op': 0, 'step': 1 + int(frac * ctx['step_estimate'].get(g[0], 2000))}})
+        ops.append({'op': 'call', 'tuple': ts[dec.choice('sweep-verify', len(ts))], 'via': via, 'verify': True})
+    clients = [{'cid': 0, 'placement': 'main' if dec.choice('main', 2) else 'pooled', 'ops': ops}]
+    return {'clients': clients, 'sched': {'kind': 'walk', 'p': 1e-4}, 'cold': False, 'shared': [], 'dirty': None,
+            'cold_cultures': [], 'sched_seed': derive_seed(run_seed, 'sched'), 'fault_free': False, 'sweep': True}
 
 
 def gen_get_op(dec, ctx, focus):
@@ -515,6 +542,14 @@ def execute_plan(prop, plan, env, recorded=None):
     orig_on_op_start = policy.on_op_start
 
     def on_op_start(sched, client, op):
+        f0 = op.get('fault')
+        if f0 and 'frac' in f0 and not f0.get('resolved') and f0.get('ref_op', 0) < len(client.results):
+            # stratified fault point: a fraction of the measured length of the same request earlier in this run
+            # (written back into the plan, so a replay uses the concrete step)
+            length = client.results[f0['ref_op']].get('steps') or 0
+            if length > 1:
+                f0['step'] = max(1, min(length - 1, int(f0['frac'] * length)))
+            f0['resolved'] = True
         orig_on_op_start(sched, client, op)
         f = op.get('fault')
         client.pending_ctor_offset = 0
@@ -743,6 +778,7 @@ def run_batch(job):
         rep['capped'] += int(record['capped'])
         rep['cold_runs'] += int(bool(plan['cold']))
         rep['sched_kinds'][plan['sched']['kind']] = rep['sched_kinds'].get(plan['sched']['kind'], 0) + 1
+        rep['sweeps'] = rep.get('sweeps', 0) + int(bool(plan.get('sweep')))
         n = str(len(plan['clients']))
         rep['threads'][n] = rep['threads'].get(n, 0) + 1
         for f in record['faults_fired']:
